@@ -21,7 +21,7 @@ from copy import copy
 from itertools import zip_longest
 from typing import cast, Any, Optional, Union, NoReturn
 from urllib.parse import urlsplit
-from xml.sax.saxutils import escape as xml_escape
+from xml.sax.saxutils import escape
 from urllib.request import urlopen
 from urllib.error import URLError
 
@@ -949,6 +949,13 @@ def evaluate__format_date_time(self: XPathFunction, context: ta.ContextType = No
 
 ###
 # String functions that use regular expressions
+
+def xml_escape(data: str) -> str:
+    """Escapes a chunk of text for an XML source, carriage returns included (they
+    wouldn't survive the end-of-line normalization of the XML parser)."""
+    return escape(data, {'\r': '&#13;'})
+
+
 @method(function('analyze-string', nargs=(2, 3),
                  sequence_types=('xs:string?', 'xs:string', 'xs:string',
                                  'element(fn:analyze-string-result)')))
